@@ -124,12 +124,15 @@ static struct { uint16_t t[C03_TCAP]; uint32_t n; uint8_t earlier, decl, ws0; ui
   uint16_t c[8]; uint32_t nc;                         /* header text cached from an earlier part of the stream */
   uint32_t ev[C03_MAXEV], evend[C03_MAXEV], nev; } S;  /* events of T in order, each with the end position of its piece */
 static void c03_piece_event(uint32_t kind, uint32_t a, uint32_t b) { S.ev[S.nev] = (kind << 24) | ((a & 0xFFF) << 12) | (b & 0xFFF); S.evend[S.nev] = S.n; S.nev++; }
-/* stream = [P] [ws] H [ws] (X [ws])^n [C]   or, when the header was received earlier: [ws] (X [ws])^n [C] */
+/* stream = [P] [ws] H [ws] (X [ws])^n [C]   (optionally with the header of a previous stream still cached)
+   or, when the header was received earlier: [ws] (X [ws])^n [C] */
 void vp_c03_make_stream(char *text, uint32_t maxst, uint32_t part) { for (uint32_t i = 0; i < C03_TCAP; i++) S.t[i] = 0; for (uint32_t i = 0; i < 8; i++) S.c[i] = 0; for (uint32_t i = 0; i < C03_MAXEV; i++) { S.ev[i] = 0; S.evend[i] = 0; }
   S.n = 0; S.nc = 0; S.nev = 0; S.hend = 0;
   S.earlier = vp_bool(); if (part == 1) ASSUME(!S.earlier); if (part == 2) ASSUME(S.earlier); if (part == 1) S.earlier = 0; if (part == 2) S.earlier = 1; uint16_t hid = 0xE100 + vp_u8(); S.decl = vp_bool(); S.ws0 = vp_bool(); uint16_t w0 = c03_ws();
   if (S.earlier) { if (S.decl) { S.c[S.nc++] = U_PA; S.c[S.nc++] = U_PB; } if (S.ws0) S.c[S.nc++] = w0; S.c[S.nc++] = U_HA; S.c[S.nc++] = hid; S.c[S.nc++] = U_HB; }
-  else { if (S.decl) { S.t[S.n++] = U_PA; S.t[S.n++] = U_PB; } if (S.ws0) S.t[S.n++] = w0; S.t[S.n++] = U_HA; S.t[S.n++] = hid; S.t[S.n++] = U_HB; S.hend = S.n; c03_piece_event(EV_STREAM, hid, hid); }
+  else { /* a header of a previous stream may still be cached (stream restart after SASL: nothing clears it) */
+    if (vp_bool()) { S.c[S.nc++] = U_HA; S.c[S.nc++] = 0xE100 + vp_u8(); S.c[S.nc++] = U_HB; }
+    if (S.decl) { S.t[S.n++] = U_PA; S.t[S.n++] = U_PB; } if (S.ws0) S.t[S.n++] = w0; S.t[S.n++] = U_HA; S.t[S.n++] = hid; S.t[S.n++] = U_HB; S.hend = S.n; c03_piece_event(EV_STREAM, hid, hid); }
   if (vp_bool()) S.t[S.n++] = c03_ws();
   uint32_t ns = vp_u8(); ASSUME(ns <= maxst && ns <= C03_MAXSTANZAS);
   for (uint32_t k = 0; k < C03_MAXSTANZAS; k++) { if (k >= ns) break; uint16_t id = 0xE100 + vp_u8(); S.t[S.n++] = U_XA; S.t[S.n++] = id; S.t[S.n++] = U_XB; c03_piece_event(EV_STANZA, id, hid); if (vp_bool()) S.t[S.n++] = c03_ws(); }
@@ -144,7 +147,7 @@ uint8_t vp_c03_boundary(uint32_t pos) { if (pos == 0) return 1; if (pos > S.n) r
   return 0; }
 /* header text the receiver has cached when everything before `j` is consumed (x0: the leading whitespace was consumed on its own) */
 void vp_c03_cached_at(char *out, uint32_t j, uint8_t x0) { if (S.earlier) { *(QAD**)out = c03_qs(S.c, S.nc, 0, 0); return; }
-  if (S.hend == 0 || j < S.hend) { *(QAD**)out = SHARED_NULL; return; }
+  if (S.hend == 0 || j < S.hend) { *(QAD**)out = S.nc ? c03_qs(S.c, S.nc, 0, 0) : SHARED_NULL; return; }
   uint32_t from = (x0 && S.ws0 && !S.decl) ? 1 : 0; *(QAD**)out = c03_slice(S.t, S.n, from, S.hend); }
 void vp_c03_slice(char *out, uint32_t from, uint32_t to) { *(QAD**)out = c03_slice(S.t, S.n, from, to); }
 /* the events logged are exactly the events of the pieces that end in (j, j2], in order */
